@@ -261,6 +261,7 @@ pub fn name_classes() -> Vec<(&'static str, Vec<&'static str>)> {
         ("simple", vec!["a", "x_1", "foo.bar", "$auto$x", "a@3", "<=>", "~!%^&*_-+=<>.?/"]),
         ("needs-quoting", vec!["a b", "1abc", "a:b", "a#b", "x(y)", "a,b", "a;b", "a\"b", "a'b", "{x}", "[3]", "a\tb"]),
         ("non-ascii", vec!["é", "αβγ", "a✖b"]),
+        ("literal-shaped", vec!["#b01", "#xa5", "#xA", "#b", "#x", "12", "0", "1.5", "#b2"]),
         ("empty", vec![""]),
         ("reserved-word", vec!["let", "_", "!", "as", "par", "exists", "forall", "assert", "exit", "push", "BINARY", "DECIMAL"]),
         ("theory-symbol", vec!["true", "false", "not", "and", "ite", "bvadd", "select", "concat", "distinct", "=", "=>"]),
